@@ -57,6 +57,26 @@ class GBox(Generic[_GT]):
 class GBox2(Generic[_GT]):
     items: List[_GT]
 ''', ["GBox[LocItem]", "GBox2[LocItem]", "List[GBox[LocItem]]"], None),
+    "local_value_factories": ('''
+from mashumaro.types import GenericSerializableType
+def _lf():
+    @dataclass
+    class LocV(DataClassDictMixin):
+        z: int = 0
+    return LocV
+LocV = _lf()
+_GST = TypeVar("_GST")
+class GSer(Generic[_GST], GenericSerializableType):
+    def __init__(self, v):
+        self.v = v
+    def __eq__(self, other):
+        return type(other) is GSer and other.v == self.v
+    def _serialize(self, types):
+        return self.v
+    @classmethod
+    def _deserialize(cls, value, types):
+        return cls(value)
+''', ["DefaultDict[str, LocV]", "collections.defaultdict[str, List[LocV]]", "GSer[LocV]", "GSer[List[LocV]]"], None),
     "str_subclass": ('''
 class MyStr(str):
     pass
@@ -125,6 +145,12 @@ def awkward_task(payload):
 
 
 SAMPLES = {
+    "local_value_factories": {
+        "DefaultDict[str, LocV]": ("{'k': {'z': 1}}", "type(v['k']) is LocV and type(v['missing']) is LocV"),
+        "collections.defaultdict[str, List[LocV]]": ("{'k': [{'z': 1}]}", "type(v['k'][0]) is LocV"),
+        "GSer[LocV]": ("5", "type(v) is GSer and v.v == 5"),
+        "GSer[List[LocV]]": ("5", "type(v) is GSer and v.v == 5"),
+    },
     "str_subclass": {
         "Union[MyStr, int]": ("'a'", "v == 'a'"),
         "Union[int, MyStr, None]": ("'a'", "v == 'a'"),
